@@ -73,6 +73,20 @@ def main():
     gc.collect()
     gc.freeze()      # keep the collector from writing to (and so copying) the zygote's pages in children
 
+    # Warm-up: the parent's heap is not in its steady state until the loop below has run a few times (first use of
+    # fork/waitpid/bytes formatting allocates and frees).  A child forked in iteration 1 would otherwise start from a
+    # slightly different heap than all later ones, which shows as a few scheduler steps of difference between the
+    # first and later jobs of a zygote (id()-ordered iteration).  Three empty iterations bring it to the fixed point.
+    devnull = os.open(os.devnull, os.O_WRONLY)
+    for _ in range(3):
+        pid = os.fork()
+        if pid == 0:
+            os._exit(0)
+        _, status = os.waitpid(pid, 0)
+        if os.WIFEXITED(status) and os.WEXITSTATUS(status) == 99:
+            pass
+        os.write(devnull, b'{"exit":%d}\n' % status)
+
     while True:
         pid = os.fork()
         if pid == 0:
